@@ -5,7 +5,7 @@ OPTS = [dict(p_rel=1.0), dict(p_rel=1.0, max_m=3, max_t=3, p_nested=0.05), dict(
         # relations declared on forwarding (provide) methods
         dict(p_rel=1.0, p_relalias=0.7, max_m=3, max_t=3, p_nested=0.05, _weight=3),
         # related bodies defined under alternatives of control structures of two different modules
-        dict(p_rel=0.5, p_dblrel=1.0, max_m=3, max_t=3, p_nested=0.05, _weight=2),
+        dict(p_rel=0.5, p_dblrel=1.0, max_m=3, max_t=4, p_nested=0.05, _weight=3),
         dict(p_rel=0.5, p_two_mods=1.0, p_xmod=1.0, p_body_in_struct=0.3, max_m=3, max_t=3, p_nested=0.0, p_struct=0.2, _weight=2)]
 
 
